@@ -21,7 +21,8 @@
                                             are separate name spaces here, so a party labelled like an over-represented
                                             district cannot end it) + Biprop.augment
      _adj_coef            L678-717  Biprop.adj_coef
-     evaluate             L562-641  [bstep], [bloop], [evaluate_core], [evaluate_total]
+     evaluate             L562-641  [bstep], [bloop], [evaluate_core], [evaluate_total]; the refusal of an election
+                                    without votes that opens it (fixes/C07-all-zero.diff): [refuses_empty], BP_no_votes
 
    Python exceptions are constructors of [bp_result]; running out of the explicit fuel is its own
    constructor.  Multipliers are kept Qred-normalised (as Fraction does) - semantically the identity. *)
@@ -50,7 +51,12 @@ Inductive bp_result :=
 | BP_value_error                                  (* HighestAverages on an empty eligible list *)
 | BP_party_tie                                    (* the party apportionment is tied: outside the modelled domain *)
 | BP_district_tie                                 (* the district apportionment is tied: outside the modelled domain *)
+| BP_no_votes                                     (* VotingSystemError: no votes cast (fixes/C07-all-zero.diff) *)
 | BP_out_of_fuel.
+
+(* any(n_votes for district_votes in votes.values() for n_votes in district_votes.values()) *)
+Definition has_votes (votes : mat) : bool :=
+  existsb (fun row => existsb (fun kv => negb (snd kv =? 0)) (snd row)) votes.
 
 Section Loop.
   Variable d : Z -> Q.            (* divisor_function *)
@@ -321,14 +327,21 @@ Section Loop.
       | Init_key_error => inl BP_key_error
       end.
 
-    Definition evaluate_core (n : Z) (fuel : nat) : bp_result :=
+    (* the refusal that opens evaluate since fixes/C07-all-zero.diff: an election without a single vote.
+       [strict] = true is the code as it stands (repaired); [strict] = false is the pinned tree, which went on and handed
+       seats to cells without votes (Props/C07.v C07_all_zero_refuted is a statement about it) *)
+    Definition refuses_empty (strict : bool) : bool := strict && negb (has_votes votes).
+
+    Definition evaluate_core (strict : bool) (n : Z) (fuel : nat) : bp_result :=
+      if refuses_empty strict then BP_no_votes else
       match binit n with
       | inr s => bloop fuel s
       | inl e => e
       end.
   End Iter.
 
-  Definition run_core (votes : mat) (tgt : list (C * Z)) (dorder : list C) (n : Z) (fuel : nat) : list bstate * bp_result :=
+  Definition run_core (votes : mat) (tgt : list (C * Z)) (dorder : list C) (strict : bool) (n : Z) (fuel : nat) : list bstate * bp_result :=
+    if refuses_empty votes strict then ([], BP_no_votes) else
     match binit votes n with
     | inr s => bloop_trace votes tgt dorder fuel s
     | inl e => ([], e)
@@ -336,17 +349,19 @@ Section Loop.
 
   (* seats given as a total and no apportioner: the districts are apportioned by the same
      HighestAverages evaluator on the district totals (core.apportion) *)
-  Definition evaluate_total (votes : mat) (n : Z) (dorder : list C) (fuel : nat) : bp_result :=
+  Definition evaluate_total (votes : mat) (strict : bool) (n : Z) (dorder : list C) (fuel : nat) : bp_result :=
+    if refuses_empty votes strict then BP_no_votes else
     match binit votes n with
     | inl e => e
     | inr _ =>
         match HighestAverages.evaluate d (district_totals votes) n [] [] with
         | HA_value_error => BP_value_error
         | HA_ok _ (Some _) => BP_district_tie
-        | HA_ok tgt None => evaluate_core votes tgt dorder n fuel
+        | HA_ok tgt None => evaluate_core votes tgt dorder strict n fuel
         end
     end.
-  Definition run_total (votes : mat) (n : Z) (dorder : list C) (fuel : nat) : list bstate * bp_result :=
+  Definition run_total (votes : mat) (strict : bool) (n : Z) (dorder : list C) (fuel : nat) : list bstate * bp_result :=
+    if refuses_empty votes strict then ([], BP_no_votes) else
     match binit votes n with
     | inl e => ([], e)
     | inr s =>
